@@ -5,12 +5,9 @@
 import Hv.Driver.Core
 import Hv.Driver.Vmdk
 import Hv.Meta
-<<<<<<< HEAD
 import Hv.HddOpen
 import Hv.Stream
-=======
 import Hv.MetaEnc
->>>>>>> 2c6de393f023e82cab5a312b9ace4b1208b49a6f
 namespace Hv.Driver
 open Hv
 
